@@ -262,6 +262,21 @@ func c15Run(c core.Case, env *core.Env) core.Result {
 			r.Fail("vs-long", "share verifies against t+2 commitments")
 		}
 	}
+	// an id that is 0 modulo the group order evaluates the polynomial at 0: the "share" would be the secret itself. No such
+	// id is admissible, so nothing may verify under it - not even the secret (which, on a curve whose identity is an
+	// ordinary point, satisfies the equation sum_k 0^k V_k = V_0)
+	for _, zid := range []*big.Int{big.NewInt(0), new(big.Int).Set(q), new(big.Int).Lsh(q, 1), new(big.Int).Mul(q, big.NewInt(3))} {
+		for what, val := range map[string]*big.Int{"the secret": new(big.Int).Mod(secret, q), "the secret + q": new(big.Int).Add(new(big.Int).Mod(secret, q), q), "a dealt share": shares[0].Share, "0": big.NewInt(0)} {
+			var ok bool
+			if p, msg, _ := guard(func() { ok = (&vss.Share{Threshold: t, ID: zid, Share: val}).Verify(ec, t, vs) }); p {
+				r.Fail("share-zero-id-panic", "Verify panicked for id %s (0 mod q) with share value %s: %s", hx(zid), what, msg)
+			} else if ok {
+				r.Fail("share-zero-id", "a share with id %s (0 modulo the group order) and value %s verifies", hx(zid), what)
+			}
+			r.Count("alterations_rejected", 1)
+			r.Count("zero_id_probes", 1)
+		}
+	}
 	// commitments replaced by coordinate pairs that are not points of the curve (a receiver holds whatever the decoder or
 	// the caller gave it): x+-1, x+-2 (ed25519 point compression keeps only the parity of x), y+1, x+p
 	{
